@@ -552,7 +552,7 @@ func vpStartDrain(mq chan []byte) *vpDrain {
 				got = nil
 				close(ack)
 			case ack := <-d.stall:
-				// the consumer stalls: nothing is taken from the queue until it has been full for 30 ms
+				// the consumer stalls: nothing is taken from the queue until it has been full for 300 µs
 				// (publishes are dropped meanwhile) or 3 s have passed; then it drains normally again
 				close(ack)
 				t0 := time.Now()
@@ -564,10 +564,10 @@ func vpStartDrain(mq chan []byte) *vpDrain {
 					default:
 					}
 					if len(d.mq) == cap(d.mq) {
-						time.Sleep(30 * time.Millisecond)
+						time.Sleep(300 * time.Microsecond)
 						break
 					}
-					time.Sleep(200 * time.Microsecond)
+					time.Sleep(20 * time.Microsecond)
 				}
 			case <-d.stop:
 				flush()
